@@ -57,6 +57,17 @@ CLAIMED["C09"] = (
     "DESIGN.md 3 C09",
 )
 
+CLAIMED["C04"] = (
+    XH + "; abstract frame model: offsets, body lengths < 2^32, cut position, fault index and short-write size are symbolic integers",
+    "The real RecordStreamReader.read is shown, for every frame start, body length < 2^32 and file end, to return the frame's object exactly when "
+    "the frame is complete and to leave the position on the next boundary (an inductive step covering streams of any length); the real readheader/__iter__ "
+    "over three frames of every kind, present or dropped, yields exactly the complete, decodable record frames for every cut position; the real writer, "
+    "with its j-th write call failing short, leaves a prefix of the intended byte sequence. Crash points and fault indexes are symbolic, so every one is covered within the bounds.",
+    "Trusted: msgpack refuses a truncated value (validated concretely on every run by truncating real frames at every byte); the length-prefix codec (C02). "
+    "Outside: compression layers, a writer that keeps writing after a partially stored frame.",
+    "DESIGN.md 3 C04",
+)
+
 NOT_APPLICABLE = {
     "C13": "every operation the property constrains (datetime construction/arithmetic, fromisoformat, zoneinfo, fastavro/sqlite3 conversions) is C code; "
     "CrossHair realises each datetime component at the C constructor and the repo-side logic is two value-free ifs, so no value-level case would be decided by the solver (DESIGN.md 6)",
